@@ -267,8 +267,8 @@ type cloneObs struct {
 	KeepState bool     `json:"keep_state"`
 	Nil       bool     `json:"nil,omitempty"`
 	Panic     string   `json:"panic,omitempty"`
-	Leaked    []string `json:"leaked,omitempty"`       // secure canaries found in the clone's JSON (harness labels)
-	Missing   []string `json:"missing,omitempty"`      // plain canaries expected in the clone's JSON and not found
+	Leaked    []string `json:"leaked,omitempty"`  // secure canaries found in the clone's JSON (harness labels)
+	Missing   []string `json:"missing,omitempty"` // plain canaries expected in the clone's JSON and not found
 	NSecret   int      `json:"n_secret"`
 	NPlain    int      `json:"n_plain"`
 	OrigSame  bool     `json:"original_unchanged"`
@@ -358,14 +358,14 @@ func (pc *planCase) cloneCase(entry string, ks bool, rootTerm string, origActs [
 // ---------------------------------------------------------------- reports.Render
 
 type renderObs struct {
-	Err      string   `json:"err,omitempty"`
-	Panic    string   `json:"panic,omitempty"`
-	Files    int      `json:"files"`
-	Bytes    int      `json:"bytes"`
-	Leaked   []string `json:"leaked,omitempty"`
-	Missing  []string `json:"missing,omitempty"`
-	NSecret  int      `json:"n_secret"`
-	NExpect  int      `json:"n_expect"`
+	Err     string   `json:"err,omitempty"`
+	Panic   string   `json:"panic,omitempty"`
+	Files   int      `json:"files"`
+	Bytes   int      `json:"bytes"`
+	Leaked  []string `json:"leaked,omitempty"`
+	Missing []string `json:"missing,omitempty"`
+	NSecret int      `json:"n_secret"`
+	NExpect int      `json:"n_expect"`
 }
 
 func (pc *planCase) renderCase(planTerm string) (string, renderObs) {
